@@ -4,9 +4,12 @@ checks/meta/_not_applicable.json. Run after editing any meta file."""
 import glob, json, os, subprocess
 V = "/verif"
 checks = []
+ready = set(json.load(open(os.path.join(V, "checks/meta/_ready.json"))))
 for p in sorted(glob.glob(os.path.join(V, "checks/meta/C*.json"))):
     m = json.load(open(p))
     pid = m["property_id"]
+    if pid not in ready:
+        continue
     checks.append({
         "property_id": pid,
         "quick_cmd": "./check %s --tier quick" % pid,
@@ -21,6 +24,11 @@ for p in sorted(glob.glob(os.path.join(V, "checks/meta/C*.json"))):
 na = json.load(open(os.path.join(V, "checks/meta/_not_applicable.json")))
 claimed = {c["property_id"] for c in checks}
 na = [x for x in na if x["property_id"] not in claimed]
+props = [json.loads(l)["id"] for l in open(os.path.join(V, "properties.jsonl"))]
+for pid in props:
+    if pid not in claimed and pid not in {x["property_id"] for x in na}:
+        na.append({"property_id": pid, "reason": "not yet claimed: check under construction (see DESIGN.md §5 build order)"})
+na.sort(key=lambda x: x["property_id"])
 hooks = json.load(open(os.path.join(V, "checks/meta/_hooks.json")))
 man = {
     "version": 1,
